@@ -21,6 +21,7 @@ def rule_clean_numeric(rep, tier, rule="N-clean"):
     vals = ["0.5", "2519.3075148880134", "60.0", "60", "-0.0", "0.0", "0", "9.86e-20", "2.5e-300", "1e+250", "-3.25", "0.1", "123456789012345.6", "5e-324", "-1e-17"]
     if tier == "thorough":
         vals += ["%de%+03d" % (m, e) for m in (1, 7) for e in (-310, -100, -17, -16, -15, 15, 16, 100, 308)] + ["0.30000000000000004", "1.7976931348623157e+308"]
+        vals = [v for v in vals if float(v) != float("inf")]  # 7e+308 is beyond the range of doubles: no file written from a finite value holds it
     rows = ["    number = " + v for v in vals] + ["        value = " + v for v in vals]
     others = ["points: size= 3", "xmin = 0.5", "    xmax = 2.25 ", "phonation? <exists> ", "points [2]:", "oral_formants: size=4", ""]
     I = Interp(idx, st, overrides=default_overrides())
